@@ -64,7 +64,7 @@ theorem mem_lookup_isSome {β : Type} (k : String) (l : List (String × β)) (v 
 
 theorem getBackend_nodot {cfg : Cfg} {u : Url} {b : Backend} (h : getBackend cfg u = some b) :
     u.dotSeg = false := by
-  unfold getBackend at h
+  unfold getBackend getBackendWith at h
   rw [fact_dot] at h
   cases hd : u.dotSeg with
   | false => rfl
@@ -73,7 +73,7 @@ theorem getBackend_nodot {cfg : Cfg} {u : Url} {b : Backend} (h : getBackend cfg
 theorem getBackend_names {cfg : Cfg} {u : Url} {b : Backend} (hok : u.ok = true)
     (h : getBackend cfg u = some b) : Names cfg u b := by
   have hd := getBackend_nodot h
-  unfold getBackend at h
+  unfold getBackend getBackendWith at h
   simp only [hd, Bool.and_false, Bool.false_eq_true, if_false] at h
   refine ⟨hok, ?_⟩
   cases hl : cfg.hosts.lookup u.norm.1 with
